@@ -182,25 +182,44 @@ def rule_companion(ctx):
             except intexpr.NotPure:
                 return 'drop:?'
         return None
+    def leaf(e):
+        # the chosen index read directly (before this call re-assigns it)
+        if norm(e) == 'self._currentIdx':
+            return state['old']
+        return None
     ok = True
     bad = ''
     try:
         for old in (None, 0, 1, 2):
             for new_ in (0, 1, 2):
                 state['old'] = old
-                lab, env = region.walk(f.node.body, {idxp: new_}, mark)
+                lab, env = region.walk(f.node.body, {idxp: new_}, mark, leaf)
                 want = 'drop:%r' % (old,) if old is not None and old != new_ else None
                 got = lab if lab and lab.startswith('drop') else None
                 if got != want:
                     ok = False
                     bad = 'previous alternative %r, new alternative %r: %s' % (old, new_, got or 'nothing dropped')
     except region.Undecided as x:
-        raise AnalysisError('Choice.setComponentByPosition is not a pure table over the two indexes: %s' % x)
+        # not a table over the two indexes in this form: the ordering conditions below still decide
+        ctx.ob('A10.single', f, 'drop of the previous alternative as a table over (previous, new) index', True,
+               'not tabulated: %s' % x, note=True)
     # order: base setter first (may raise), then the index
     cfg = ctx.cfg(f)
     setter = [n for n in cfg.stmt_nodes() if n.kind == 'stmt' and 'Set.setComponentByPosition(self' in n.text()]
     idxw = [n for n in cfg.stmt_nodes() if n.kind == 'stmt' and norm(n.ast) == 'self._currentIdx = idx']
     ok = ok and bool(setter) and bool(idxw) and cfg.dominates(setter[0], idxw[0])
+    # the previous alternative is dropped only after the new one was accepted (the base setter may refuse it)
+    drops = [n for n in cfg.stmt_nodes() if n.kind == 'stmt' and isinstance(n.ast, ast.Assign) and len(n.ast.targets) == 1 and
+             isinstance(n.ast.targets[0], ast.Subscript) and norm(n.ast.targets[0].value) == 'self.' + FIELD and norm(n.ast.value) == 'noValue']
+    if setter and any(not cfg.dominates(setter[0], d) for d in drops):
+        ok = False
+        bad = bad or 'the previous alternative is dropped before the new one has been accepted by the base setter'
+    if not idxw and setter:
+        # the index is written in a form other than `self._currentIdx = idx`: it must still follow the base setter
+        writes = [n for n in cfg.stmt_nodes() if n.kind == 'stmt' and isinstance(n.ast, ast.Assign) and
+                  any('_currentIdx' in norm(t) for t in n.ast.targets)]
+        ok = bool(writes) and all(cfg.dominates(setter[0], w) for w in writes)
+        bad = bad or 'the chosen index is written before the base setter has accepted the new alternative'
     ctx.ob('A10.single', f, 'selecting an alternative drops the previous one (after the new one was accepted)', ok, bad)
     # __len__/__contains__/__iter__/isValue derive from _currentIdx
     for nm in ('__len__', '__contains__', '__iter__', 'values', 'keys', 'items'):
